@@ -111,6 +111,8 @@ def r10_3_last_on_send(ctx, prog, rule="R10.3"):
             if use_fp == 1:
                 if i_fp < 0 or i_fp > i_cr or (i_me >= 0 and i_fp < i_me):
                     ok, why = False, "fingerprint index %d, mechanism %d, build %d" % (i_fp, i_me, i_cr)
+            elif use_fp is None:
+                ok, why = False, "a message is built on a path that never consulted use_fingerprint"
             else:
                 if i_fp >= 0:
                     ok, why = False, "FINGERPRINT added although use_fingerprint=%s" % use_fp
@@ -794,3 +796,37 @@ def r18_2_flows(ctx, prog, rule="R18.2"):
            "decode loop paths that branch on the validation flag: %d" % len([s for s in segs if s["validation"] is not None]), info["where"])
     # appended at most once per iteration, and iterations are in wire order by construction of the loop
     ctx.ob(rule, "append-once", all(s["order"].count("with_attribute") <= 1 for s in segs), "with_attribute at most once per iteration", info["where"])
+
+
+def r18_5_builder(ctx, prog, rule="R18.5"):
+    ctx.rule(rule, "DecoderContextBuilder: each option setter returns the same builder with exactly its own field changed "
+                   "(options are independent of the order in which they are set); build() returns the accumulated context")
+    exp = {"with_key": ("key", None), "with_validation": ("validation", 1), "with_unknown_data": ("unknown_data", 1), "not_ignore": ("not_ignore", 1)}
+    adt = prog.adt(DC)
+    names = [f["name"] for f in adt["variants"][0]["fields"]]
+    for fn, (field, val) in exp.items():
+        b = prog.body("stun_rs::context::DecoderContextBuilder::%s" % fn, required=False)
+        if b is None:
+            ctx.anchor_missing(rule, "DecoderContextBuilder::%s" % fn)
+            continue
+        paths, info = _paths(ctx, prog, b.path, "bld")
+        for pa in paths:
+            r = pa.ret
+            ok = isinstance(r, tuple) and r[0] == "DecoderContextBuilder" and isinstance(r[1], tuple) and r[1][0] == "DecoderContext" and len(r[1]) == 1 + len(names)
+            why = "returns %r" % (r,)
+            if ok:
+                for i, nme in enumerate(names):
+                    got = r[1][1 + i]
+                    if nme == field:
+                        if val is not None and got != val:
+                            ok, why = False, "%s sets %s to %r" % (fn, nme, got)
+                        if val is None and not (isinstance(got, tuple) and got[0] == "Option::Some" and "key" in repr(got)):
+                            ok, why = False, "%s sets key to %r" % (fn, got)
+                    else:
+                        if "self.0.%s" % nme not in repr(got) and "bld.0.%s" % nme not in repr(got):
+                            ok, why = False, "%s changes the unrelated option %s to %r" % (fn, nme, got)
+            ctx.ob(rule, fn, ok, why[:260], b.where(), replay=None if ok else pa.describe())
+    b = prog.body("stun_rs::context::DecoderContextBuilder::build")
+    paths, info = _paths(ctx, prog, b.path, "bld")
+    for pa in paths:
+        ctx.ob(rule, "build", "bld.0" in repr(pa.ret) or "self.0" in repr(pa.ret), "build returns %r" % (pa.ret,), b.where())
